@@ -257,10 +257,14 @@ class Repo:
         'biom/table.py': {'Table.to_hdf5', 'Table.from_hdf5',
                           'general_parser', 'vlen_list_of_str_parser',
                           'general_formatter', 'vlen_list_of_str_formatter'},
-        'biom/cli/table_validator.py': {'TableValidator._validate_hdf5'},
+        'biom/cli/table_validator.py': {'TableValidator._validate_hdf5',
+                                        'TableValidator._validate_json',
+                                        'TableValidator._valid_data'},
     }
     # functions in which the loops over the two axes are unrolled as well
-    UNROLL_AXIS_LOOPS = {'TableValidator._validate_hdf5'}
+    UNROLL_AXIS_LOOPS = {'TableValidator._validate_hdf5',
+                         'TableValidator._validate_json',
+                         'TableValidator._valid_data'}
 
     def _normalise(self, rel, tree):
         want = self.NORMALISE.get(rel)
